@@ -430,3 +430,23 @@ plan("C17", "exploration",
      "harness-side layout inversion; LMDB trusted",
      "runtime monitoring: round-trip differential (invert layout, run the real upgrade, byte-compare dumps) over generated databases",
      "DESIGN.md §3 C17")
+
+
+# ------------------------------------------------------------------------------------------------
+# extra thorough-tier legs on top of the explorer plans
+
+def _extra(prop, legs, assumptions=()):
+    PLANS[prop]["legs"].extend(legs)
+    PLANS[prop]["assumptions"] = list(assumptions) + PLANS[prop]["assumptions"]
+
+
+_extra("C02", [worker("asan", ["explore", "C02", "--cases", "1600"], build="asan", tiers=("thorough",), env=ASAN_ENV, sanitizer="asan", watchdog=(3600, 3600))],
+       ["ASan leg: a heap over-read on the query path is a violation (query vectors are exact-size allocations); LMDB's C code is not instrumented"])
+_extra("C03", [worker("asan", ["explore", "C03", "--cases", "1000"], build="asan", tiers=("thorough",), env=ASAN_ENV, sanitizer="asan", watchdog=(3600, 3600)),
+               worker("plain", ["explore", "C03", "--cases", "6000"], build="plain", tiers=("thorough",), watchdog=(3600, 3600))],
+       ["plain leg = release profile without debug assertions / overflow checks (what a downstream user ships)"])
+_extra("C18", [worker("asan", ["explore", "C18", "--cases", "1200"], build="asan", tiers=("thorough",), env=ASAN_ENV, sanitizer="asan", watchdog=(3600, 3600))],
+       ["ASan leg covers the post-change queries (a stored vector longer than the query makes the AVX kernel over-read)"])
+_extra("C11", [worker("plain", ["kernels", "C11", "--reps", "60"], build="plain", tiers=("thorough",), watchdog=(3600, 3600))])
+_extra("C12", [worker("plain", ["bq", "C12", "--random", "2000"], build="plain", tiers=("thorough",), watchdog=(3600, 3600))])
+_extra("C20", [worker("plain", ["explore", "C20", "--cases", "2600"], build="plain", tiers=("thorough",), watchdog=(3600, 3600))])
